@@ -557,10 +557,14 @@ static int inot_reg(struct rthr *th, int id)
 	o->mem = malloc(o->memsz);
 	memset(o->mem, 0xA5, o->memsz);
 	IV_INOTIFY_INIT((struct iv_inotify *)o->mem);
+	reg_fault_arm(id, 1, FS_INOTIFY_INIT, EMFILE);
 	if (iv_inotify_register(o->mem) != 0) {
+		reg_fault_disarm(FS_INOTIFY_INIT);
+		PROBE[PR_REG_FAILED_EXT]++;
 		obj_free_mem(id);
 		return 1;
 	}
+	reg_fault_disarm(FS_INOTIFY_INIT);
 	o->registered = 1;
 	o->xi[IX_FD] = ((struct iv_inotify *)o->mem)->fd.fd;
 	if (IQ[id] != NULL)
@@ -617,10 +621,14 @@ static int watch_reg(struct rthr *th, int id)
 	w->mask = (uint32_t)po->p[2];
 	w->cookie = new_cookie(id);
 	w->handler = h_watch;
+	reg_fault_arm(id, 1, FS_INOTIFY_ADD, ENOSPC);
 	if (iv_inotify_watch_register(w) != 0) {
+		reg_fault_disarm(FS_INOTIFY_ADD);
+		PROBE[PR_REG_FAILED_EXT]++;
 		obj_free_mem(id);
 		return 1;
 	}
+	reg_fault_disarm(FS_INOTIFY_ADD);
 	/* an inode that is already watched through another path of this instance yields the same wd */
 	for (i = 0; i < PL->nobj; i++)
 		if (i != id && PL->obj[i].kind == K_WATCH && PL->obj[i].p[0] == inst && RO[i].registered && RO[i].xi[WX_WD] == w->wd) {
